@@ -340,6 +340,26 @@ def c15_admit_gen(rng, tier):
             else:
                 steps.append("%s:%s" % (rng.choice(kinds), rng.choice(clients)))
         out.append("e%d rate=1 burst=%d v4=%d v6=%d global=0 steps=%s" % (i, burst, v4, v6, ",".join(steps)))
+    # round 6: listeners on abstract unix sockets (the transport peer has no IP address): a reverse proxy opens many
+    # connections on behalf of clients from many subnets (address in the header); tcp over the unix socket as well
+    for i in range(budget(tier, 14, 140)):
+        burst = rng.choice([5, 5, 6, 7, 9, 12])
+        subs = [a4((10 << 24) | (rng.randrange(1, 250) << 16) | (j << 8) | rng.randrange(1, 250)) for j in range(8)]
+        subs += [a6((0x20010DB8 << 96) | (rng.randrange(1 << 16) << 80) | 1), mapped(0x0A630001 + (rng.randrange(200) << 8))]
+        rng.shuffle(subs)
+        steps = []
+        nconn = rng.choice([3, 4, 5, 6])
+        for j in range(nconn):
+            steps.append("hc:none")
+            steps += ["hq:" + subs[(j + t) % len(subs)] for t in range(rng.choice([1, 1, 2]))]
+            if rng.random() < 0.25:
+                steps.append("tq:none")
+            if rng.random() < 0.15:
+                steps.append("hx:%d" % rng.randrange(10))
+        if rng.random() < 0.5:
+            steps += ["hq:" + subs[0]] * rng.choice([1, 2])
+        out.append("x%d rate=1 burst=%d v4=%d v6=%d global=0 unix=1 steps=%s" % (
+            i, burst, rng.choice([0, 24]), rng.choice([0, 48]), ",".join(steps)))
     # round 2: configured masks end to end.  DoH clients (address from the header) placed relative to BOTH configured
     # masks (cfg_pool): a noisy client exhausts its subnet, then neighbours inside / outside its subnet ask
     for i in range(budget(tier, 60, 600)):
@@ -386,6 +406,14 @@ def c15_admit_oracle(line, res):
         kind, a = st.split(":")
         if o.endswith("+fwd"):
             return "step %s: outcome %s but the query reached the upstream (a query the limiter did not admit must not be forwarded)" % (st, o)
+        if a == "none":
+            # a peer without an IP address (listener on a unix socket): there is no subnet to charge; the clients behind
+            # the connection are limited per request by the address in the client_addr_header
+            if kind == "hc" and o == "CLOSED":
+                return ("step %s: the connection of a peer without an IP address (http listener on a unix socket) was closed by the "
+                        "limiter: the connection cost can only be charged to a valid peer address; the clients behind such "
+                        "connections (client_addr_header) are all within their own budgets" % st)
+            continue
         if kind == "hx":
             # the client address header does not parse: no subnet can be charged, so the request must not be processed
             if o != "400":
@@ -445,6 +473,8 @@ def c15_admit_classify(line, res):
     m = ""
     if int(f.get("v4", "0")) != 0 or int(f.get("v6", "0")) != 0:
         m = " masks-set" + ("-differ" if f.get("v4") != f.get("v6") else "")
+    if f.get("unix") == "1":
+        m += " unix-socket"
     return "+".join(ks) + "=>" + ("/".join(tags) or "all-admitted") + m
 
 
